@@ -122,6 +122,7 @@ def run(prop, tier):
             system = emusrv.System(SPEC, require=req, extra_meta=MARKS)
             td = system.write(scratch.sub("t-" + model))
             pool = ServerPool(exe, td, ["-l"])
+            pool.meta = system.meta if "system" in dir() else None
             try:
                 s = pool.local.streams
                 A, B = s["loom.A/proc.100/thread.101"], s["loom.A/proc.100/thread.102"]
